@@ -21,9 +21,6 @@ func VerifSetRaw(e *Element, c [3][4]uint64) *Element {
 	return e
 }
 
-// VerifAddAffine3Iso2 calls the unexported affine addition on the isogenous curve.
-func VerifAddAffine3Iso2(e, v *Element) *Element { return e.addAffine3Iso2(v) }
-
 // VerifExpandXMD calls the unexported expander.
 func VerifExpandXMD(input, dst []byte, length uint) []byte { return expandXMD(input, dst, length) }
 
